@@ -1206,60 +1206,158 @@ func shapeClass(ex *expectation, resps []obsResp, isArray bool) string {
 	return "single-request-answered-with-array:" + k
 }
 
-// diagnose names the first discrepancy between the plain reading (alts[0],
-// widened by every alternative for compatibility tests) and the observation.
+// baseDesc strips input-specific detail from a request kind so that class
+// strings classify the defect, not the input.
+func baseDesc(d string) string {
+	if i := strings.IndexByte(d, '+'); i >= 0 {
+		d = d[:i]
+	}
+	if i := strings.Index(d, ":valid:"); i >= 0 {
+		d = d[:i+6]
+	}
+	return d
+}
+
+// diagnose names the discrepancy that remains after the already-named
+// deviations (ill-typed id echoed, failing notification answered) are granted:
+// a maximum response<->request matching leaves unmatched responses and
+// unanswered requests, which are paired up by id / payload.
 func diagnose(ex *expectation, resps []obsResp, obsInv []string) (string, string) {
-	allowedResp := map[string][]int{} // key -> entries that accept it
-	allowedInv := map[string][]int{}
-	for i, e := range ex.entries {
-		for _, a := range e.alts {
-			for _, k := range a.resp {
-				allowedResp[k] = append(allowedResp[k], i)
-			}
-			if a.inv != "" {
-				allowedInv[a.inv] = append(allowedInv[a.inv], i)
+	entries := make([]entry, len(ex.entries))
+	copy(entries, ex.entries)
+	for i, e := range entries {
+		if e.notifErr != "" {
+			for _, r := range resps {
+				if r.key == e.notifErr {
+					entries[i].alts = append(append([]alt{}, e.alts...), alt{resp: []string{e.notifErr}})
+					break
+				}
 			}
 		}
 	}
-	descOf := func(i int) string { return ex.entries[i].desc }
-	// 1. a response nobody may produce
-	for _, r := range resps {
-		if len(allowedResp[r.key]) > 0 {
-			continue
+	keys := make([]string, len(resps))
+	for i, r := range resps {
+		keys[i] = r.key
+		if r.badID {
+			keys[i] = r.nullKey
+			resps[i].id = "null"
 		}
-		// which entry is it closest to?
-		for i, e := range ex.entries {
-			for _, a := range e.alts {
-				if len(a.resp) == 0 {
-					if r.id == "null" && strings.HasPrefix(r.kind, "E") && strings.HasPrefix(e.desc, "notification:") &&
-						((r.kind == "E-32601" && strings.Contains(e.desc, "unknown-method")) || (r.kind == "E-32602" && strings.Contains(e.desc, "bad-params"))) {
-						return "notification-answered:" + strings.TrimPrefix(e.desc, "notification:") + ":" + r.kind,
-							fmt.Sprintf("a notification (no id) was answered with %s; the specification forbids replying to notifications", r.key)
-					}
-					continue
+	}
+	accepts := map[string][]int{} // response key -> entries accepting it
+	for j, e := range entries {
+		seen := map[string]bool{}
+		for _, a := range e.alts {
+			for _, k := range a.resp {
+				if !seen[k] {
+					seen[k] = true
+					accepts[k] = append(accepts[k], j)
 				}
+			}
+		}
+	}
+	// Kuhn's maximum matching, responses -> entries
+	matchE := make([]int, len(entries)) // entry -> response
+	for j := range matchE {
+		matchE[j] = -1
+	}
+	matchR := make([]int, len(resps))
+	var try func(i int, seen []bool) bool
+	try = func(i int, seen []bool) bool {
+		for _, j := range accepts[keys[i]] {
+			if seen[j] {
+				continue
+			}
+			seen[j] = true
+			if matchE[j] < 0 || try(matchE[j], seen) {
+				matchE[j], matchR[i] = i, j
+				return true
+			}
+		}
+		return false
+	}
+	var unR []int
+	for i := range resps {
+		matchR[i] = -1
+		if !try(i, make([]bool, len(entries))) {
+			unR = append(unR, i)
+		}
+	}
+	mustRespond := func(e entry) bool {
+		for _, a := range e.alts {
+			if len(a.resp) == 0 {
+				return false
+			}
+		}
+		return true
+	}
+	var unE []int
+	for j, e := range entries {
+		if matchE[j] < 0 && mustRespond(e) {
+			unE = append(unE, j)
+		}
+	}
+	desc := func(j int) string { return baseDesc(entries[j].desc) }
+	sameID := func(j int, id, kind string) string {
+		for _, a := range entries[j].alts {
+			for _, k := range a.resp {
+				if idOfKey(k) == id && kindOfKey(k) != kind {
+					return k
+				}
+			}
+		}
+		return ""
+	}
+	for _, i := range unR {
+		r := resps[i]
+		for _, j := range unE {
+			if k := sameID(j, r.id, r.kind); k != "" {
+				return "wrong-outcome:" + desc(j) + ":got=" + r.kind, fmt.Sprintf("request %d (%s) with id %s: acceptable %s, observed %s", j, entries[j].desc, r.id, clipS(k), clipS(keys[i]))
+			}
+		}
+		for _, j := range unE {
+			for _, a := range entries[j].alts {
 				for _, k := range a.resp {
-					if idOfKey(k) == r.id && kindOfKey(k) != r.kind {
-						return "wrong-outcome:" + descOf(i) + ":got=" + r.kind, fmt.Sprintf("request with id %s expected %s, observed %s", r.id, k, r.key)
+					if kindOfKey(k) == r.kind && payloadOfKey(k) == payloadOfKey(keys[i]) && idOfKey(k) != r.id {
+						return "wrong-id:" + desc(j) + ":" + r.kind, fmt.Sprintf("response %s carries id %s, request %d (%s) has id %s", clipS(keys[i]), r.id, j, entries[j].desc, idOfKey(k))
 					}
 				}
 			}
 		}
-		for i, e := range ex.entries {
-			for _, a := range e.alts {
-				for _, k := range a.resp {
-					if kindOfKey(k) == r.kind && idOfKey(k) != r.id && payloadOfKey(k) == payloadOfKey(r.key) {
-						return "wrong-id:" + descOf(i) + ":" + r.kind, fmt.Sprintf("response %s carries id %s, the matching request has %s", r.key, r.id, idOfKey(k))
-					}
-				}
+		if len(accepts[keys[i]]) > 0 {
+			return "duplicated-response:" + r.kind, fmt.Sprintf("response %s occurs more often than requests that may produce it (%d)", clipS(keys[i]), len(accepts[keys[i]]))
+		}
+		for j := range entries {
+			if k := sameID(j, r.id, r.kind); k != "" && r.id != "null" {
+				return "wrong-outcome:" + desc(j) + ":got=" + r.kind, fmt.Sprintf("request %d (%s) with id %s: acceptable %s, observed %s", j, entries[j].desc, r.id, clipS(k), clipS(keys[i]))
 			}
 		}
 		if r.kind == "result" || r.kind == "app-error" {
-			return "wrong-payload:" + r.kind, fmt.Sprintf("response %s does not echo the arguments of any request", r.key)
+			for j, e := range entries {
+				for _, a := range e.alts {
+					for _, k := range a.resp {
+						if kindOfKey(k) == r.kind && idOfKey(k) == r.id {
+							return "wrong-payload:" + desc(j) + ":" + r.kind, fmt.Sprintf("request %d (%s): acceptable %s, observed %s", j, e.desc, clipS(k), clipS(keys[i]))
+						}
+					}
+				}
+			}
+			return "wrong-payload:" + r.kind, fmt.Sprintf("response %s does not echo the arguments of any request", clipS(keys[i]))
 		}
-		return "unexpected-response:" + r.kind, fmt.Sprintf("response %s matches no request of the input", r.key)
+		return "unexpected-response:" + r.kind, fmt.Sprintf("response %s matches no request of the input", clipS(keys[i]))
 	}
-	// 2. an invocation nobody asked for
+	if len(unE) > 0 {
+		j := unE[0]
+		return "lost-response:" + desc(j), fmt.Sprintf("no response for request %d (%s); acceptable: %v", j, entries[j].desc, clipS(strings.Join(entries[j].alts[0].resp, " or ")))
+	}
+	// responses can all be attributed; now the invocations
+	allowedInv := map[string][]int{}
+	for j, e := range entries {
+		for _, a := range e.alts {
+			if a.inv != "" {
+				allowedInv[a.inv] = append(allowedInv[a.inv], j)
+			}
+		}
+	}
 	invCount := map[string]int{}
 	for _, k := range obsInv {
 		invCount[k]++
@@ -1267,81 +1365,67 @@ func diagnose(ex *expectation, resps []obsResp, obsInv []string) (string, string
 	for k, c := range invCount {
 		m := k[:strings.IndexByte(k, '|')]
 		if len(allowedInv[k]) == 0 {
-			// same method requested with other args?
-			for ak := range allowedInv {
-				if strings.HasPrefix(ak, m+"|") {
-					return "args-mismatch:" + m, fmt.Sprintf("handler ran as %s, caller supplied %s", k, ak)
+			for ak, js := range allowedInv {
+				if strings.HasPrefix(ak, m+"|") && invCount[ak] == 0 {
+					return "args-mismatch:" + desc(js[0]), fmt.Sprintf("handler ran as %s, caller supplied %s", clipS(k), clipS(ak))
 				}
 			}
-			return "handler-invoked-for-invalid-request:" + m, fmt.Sprintf("handler ran as %s although no valid request asks for it", k)
+			return "handler-invoked-for-invalid-request", fmt.Sprintf("handler ran as %s although no valid request asks for it", clipS(k))
 		}
 		if c > len(allowedInv[k]) {
-			return "handler-invoked-more-than-once:" + m, fmt.Sprintf("%s ran %d times for %d request(s)", k, c, len(allowedInv[k]))
+			return "handler-invoked-more-than-once", fmt.Sprintf("%s ran %d times for %d request(s)", clipS(k), c, len(allowedInv[k]))
 		}
 	}
-	// 3. required things that are missing
-	respCount, respLeft, invLeft := map[string]int{}, map[string]int{}, map[string]int{}
-	for _, r := range resps {
-		respCount[r.key]++
-		respLeft[r.key]++
-	}
-	for k, c := range invCount {
-		invLeft[k] = c
-	}
-	for i, e := range ex.entries {
-		mustRespond, mustInvoke := true, true
-		for _, a := range e.alts {
-			if len(a.resp) == 0 {
-				mustRespond = false
-			}
-			if a.inv == "" {
-				mustInvoke = false
-			}
-		}
-		if mustRespond {
-			found := false
-		search:
+	for j, e := range entries {
+		// the alternative that was matched (or the silent ones) decide whether the handler had to run
+		need, forbid := "", false
+		if i := matchE[j]; i >= 0 {
 			for _, a := range e.alts {
 				for _, k := range a.resp {
-					if respLeft[k] > 0 {
-						respLeft[k]--
-						found = true
-						break search
+					if k == keys[i] {
+						if a.inv != "" {
+							need = a.inv
+						} else {
+							forbid = true
+						}
 					}
 				}
 			}
-			if !found {
-				return "lost-response:" + descOf(i), fmt.Sprintf("no response for request %d (%s); acceptable: %v", i, e.desc, e.alts[0].resp)
+		} else {
+			all := true
+			for _, a := range e.alts {
+				if len(a.resp) == 0 && a.inv == "" {
+					all = false
+				}
+			}
+			if all && len(e.alts) > 0 {
+				for _, a := range e.alts {
+					if len(a.resp) == 0 {
+						need = a.inv
+					}
+				}
 			}
 		}
-		if mustInvoke {
-			if invLeft[e.alts[0].inv] == 0 {
-				return "missing-invocation:" + descOf(i), fmt.Sprintf("handler was not run for valid request %d: %s", i, e.alts[0].inv)
-			}
-			invLeft[e.alts[0].inv]--
+		if need != "" && invCount[need] == 0 {
+			return "missing-invocation:" + desc(j), fmt.Sprintf("handler was not run for request %d (%s): %s", j, e.desc, clipS(need))
 		}
-	}
-	// a handler-made response whose handler never ran
-	for i, e := range ex.entries {
-		for _, a := range e.alts {
-			if a.inv == "" || invCount[a.inv] > 0 {
-				continue
-			}
-			for _, k := range a.resp {
-				if respCount[k] > 0 && (kindOfKey(k) == "result" || kindOfKey(k) == "app-error") {
-					return "missing-invocation:" + descOf(i), fmt.Sprintf("response %s was produced but the handler invocation %s was not recorded", k, a.inv)
+		if forbid && need == "" {
+			for _, a := range e.alts {
+				if a.inv != "" && invCount[a.inv] > 0 && len(allowedInv[a.inv]) == 1 {
+					return "handler-invoked-for-rejected-request:" + desc(j), fmt.Sprintf("request %d (%s) was answered with %s but its handler ran: %s", j, e.desc, clipS(keys[matchE[j]]), clipS(a.inv))
 				}
 			}
 		}
 	}
-	for k, c := range respCount {
-		if c > len(allowedResp[k]) {
-			return "duplicated-response:" + kindOfKey(k), fmt.Sprintf("response %s occurs %d times for %d request(s)", k, c, len(allowedResp[k]))
-		}
-	}
-	if len(resps) > len(ex.entries) {
-		return "more-responses-than-requests", fmt.Sprintf("%d responses for %d requests", len(resps), len(ex.entries))
+	if len(resps) > len(entries) {
+		return "more-responses-than-requests", fmt.Sprintf("%d responses for %d requests", len(resps), len(entries))
 	}
 	return "no-consistent-assignment", "responses and invocations are individually plausible but cannot be assigned one-to-one to the requests"
 }
 
+func clipS(s string) string {
+	if len(s) > 300 {
+		return s[:150] + "..." + s[len(s)-100:]
+	}
+	return s
+}
